@@ -161,7 +161,9 @@ func c06Run(r *core.Run) {
 						b, _ := os.ReadFile(auditPath)
 						rq.RecordAtFirstByte = "missing"
 						for _, line := range bytes.SplitAfter(b, []byte("\n")) {
-							if bytes.Contains(line, []byte(`"client.filename":"`+rq.Case.File+`"`)) {
+							// (the name as JSON spells it: &, < and > are written as \u00XX)
+							jn, _ := json.Marshal(rq.Case.File)
+							if bytes.Contains(line, append([]byte(`"client.filename":`), jn...)) {
 								if bytes.HasSuffix(line, []byte("\n")) {
 									rq.RecordAtFirstByte = "complete"
 								} else {
